@@ -232,7 +232,7 @@ def _pool_map(fn, items, chunk):
 # random cases (code -> spec)
 
 WS = [" ", "\t", " ", " ", "　"]
-ALPH = "a0;. -+eE_é٣中\U0001f600" + "".join(WS)
+ALPH = "a0;. -+eE_é٣中\U0001f600" + "".join(WS) + "\x1c\x1e\x1f"
 
 
 def rand_payload(rnd: random.Random, maxlen: int) -> str:
@@ -246,7 +246,7 @@ def rand_payload(rnd: random.Random, maxlen: int) -> str:
             c = rnd.choice([rnd.randint(33, 126), rnd.randint(0xA1, 0x2FF), rnd.randint(0x400, 0xD7FF), rnd.randint(0x10000, 0x10FFFF)])
             out.append(chr(c))
     s = "".join(out)
-    s = "".join(ch for ch in s if not ch.isspace() or ch in " \t  　")
+    s = "".join(ch for ch in s if not ch.isspace() or ch in "\x1c\x1d\x1e\x1f \t  　")
     return s.rstrip() if s.rstrip() == s else s.rstrip()
 
 
